@@ -394,6 +394,8 @@ def _wide_merge_case(args):
 def run(ctx):
     quick = ctx.tier == 'quick'
     rng = random.Random(ctx.seed + 9)
+    ctx.assumptions += ['"at least 1 CPM" is counted as the code counts it, log2(CPM+1) > 1 - 1e-6: a cell at 0.999999 CPM is '
+                        'counted (the tolerance is the code\'s own, mirrored by the numeric leaf of the harness)']
     ctx.cov['rule'] = ('one case = one random dataset (2-14 cells, 1-4 clusters incl. one-cell clusters and '
                        'unlabelled cells, 1-3 genes, 1-3 files in mixed encodings) x chunk size x worker count, run '
                        'through the real stage + collapse + merge; non-trivial = at least two clusters or files; '
